@@ -7,21 +7,6 @@ use std::sync::OnceLock;
 static CHECK: OnceLock<Box<dyn Check>> = OnceLock::new();
 static KNOWN: OnceLock<Known> = OnceLock::new();
 
-/// little-endian bytes -> entropy words, padded with zeros to the check's length
-pub fn words(data: &[u8], len: usize) -> Vec<u64> {
-    let mut w: Vec<u64> = data
-        .chunks(8)
-        .take(len)
-        .map(|c| {
-            let mut b = [0u8; 8];
-            b[..c.len()].copy_from_slice(c);
-            u64::from_le_bytes(b)
-        })
-        .collect();
-    w.resize(len, 0);
-    w
-}
-
 pub fn one(data: &[u8]) {
     let check = CHECK.get_or_init(|| {
         // libFuzzer installs a panic hook that aborts; the checks rely on catch_unwind for calls
